@@ -17,6 +17,14 @@
 
 #include "../Util/TypeTraits.h"
 
+#ifdef SPECTRA_VERIF
+// Verification failpoint (off unless SPECTRA_VERIF is defined): lets a harness lower the iteration limit so that the
+// "did not converge" path runs on ordinary inputs. Defaults to the library's own limit.
+#ifndef SPECTRA_VERIF_ITER_LIMIT
+#define SPECTRA_VERIF_ITER_LIMIT(who, dflt) (dflt)
+#endif
+#endif
+
 namespace Spectra {
 
 template <typename Scalar = double>
@@ -185,7 +193,11 @@ public:
 
             // if we spent too many iterations, we give up
             iter++;
+#ifdef SPECTRA_VERIF
+            if (iter > SPECTRA_VERIF_ITER_LIMIT("TridiagEigen", 30 * m_n))
+#else
             if (iter > 30 * m_n)
+#endif
             {
                 info = 1;
                 break;
